@@ -26,6 +26,7 @@ type Ctx struct {
 	roles    map[string]*ssa.Function
 
 	transparentCache map[*ssa.Function]bool
+	structFam        map[*ssa.Function]bool
 }
 
 func NewCtx(p *core.Prog, r *core.Report, graph, tier string) *Ctx {
